@@ -366,7 +366,45 @@ type c12Attack struct {
 	Attack string `json:"attack"`
 }
 
-var c12Attacks = []string{"smp1-unit-elements-then-forged-smp3", "smp2-unit-elements-then-forged-smp4", "smp2-pb1-qb0", "smp1-g2a-0", "smp1-g2a-p-1"}
+var c12Attacks = func() []string {
+	as := []string{"smp1-unit-elements-then-forged-smp3", "smp2-unit-elements-then-forged-smp4", "smp2-pb1-qb0", "smp1-g2a-0", "smp1-g2a-p-1"}
+	// Pb, Qb of SMP2 (Pa, Qa, Ra of SMP3) taken from {1, 0, p, 2p} — every representative of the residues 0 and 1 that fits
+	// the wire format differently — with the proofs recomputed over exactly these values
+	vals := []string{"0", "p", "2p", "1"}
+	for _, a := range vals {
+		for _, b := range vals {
+			as = append(as, "smp2:pb="+a+":qb="+b)
+		}
+	}
+	for _, a := range vals {
+		for _, b := range vals {
+			for _, c := range vals {
+				if a == "1" && b == "1" {
+					continue
+				}
+				as = append(as, "smp3:pa="+a+":qa="+b+":ra="+c)
+			}
+		}
+	}
+	return as
+}()
+
+func c12Degenerate(name string) *big.Int {
+	switch name {
+	case "0":
+		return big.NewInt(0)
+	case "p":
+		return new(big.Int).Set(p)
+	case "2p":
+		return new(big.Int).Lsh(p, 1)
+	}
+	return big.NewInt(1)
+}
+
+// x^c mod p for x in {0, p, 2p, 1} and a non-zero exponent
+func c12DegPow(x *big.Int) *big.Int {
+	return new(big.Int).Mod(x, p)
+}
 
 // c12RunAttack plays a cheating peer that knows the session keys but NOT the secret
 func c12RunAttack(at c12Attack, seed int64) (fs []verifFinding, outcome string) {
@@ -415,6 +453,135 @@ func c12RunAttack(at c12Attack, seed int64) (fs []verifFinding, outcome string) 
 	}
 	d := big.NewInt(123456789)
 	gd := modExpP(g1, d)
+	if strings.HasPrefix(at.Attack, "smp2:") || strings.HasPrefix(at.Attack, "smp3:") {
+		f := strings.Split(at.Attack, ":")
+		val := func(i int) *big.Int { return c12Degenerate(f[i][strings.IndexByte(f[i], '=')+1:]) }
+		class := "degenerate-" + f[0]
+		success := func() {
+			// one signature per message kind: every combination is the same missing range check
+			bad(fmt.Sprintf("success-without-secret:v%d:%s", at.Ver, class), "the victim reports SMP success to a peer that does not know the secret")
+		}
+		sendD := func(t tlv) verifResult {
+			m := c12Wrap(P, []tlv{t})
+			_, _, _ = P.C.createSerializedDataMessage(nil, messageFlagIgnoreUnreadable, []tlv{t})
+			r := V.Receive(m)
+			if r.Panic != "" {
+				bad("panic:"+verifPanicClass(r.Panic), "%s", r.Panic)
+			}
+			for _, ev := range r.Events {
+				if ev.Kind == 'P' {
+					events = append(events, SMPEvent(ev.Code).String())
+					if SMPEvent(ev.Code) == SMPEventSuccess {
+						success()
+					}
+				}
+			}
+			return r
+		}
+		b := big.NewInt(1) // the attacker's exponents b2 = b3 (a2 = a3) = 1
+		if f[0] == "smp2" {
+			pb, qb := val(1), val(2)
+			s := V.StartSMP("", []byte("the real secret"))
+			ts := victimTLVs(s)
+			if len(ts) == 0 {
+				return fs, "victim did not start"
+			}
+			_, m1, ok := c12Split(ts[len(ts)-1])
+			if !ok || len(m1) < 6 {
+				return fs, "no SMP1 from the victim"
+			}
+			g2a, g3a := m1[0], m1[3]
+			g2b, g3b := modExpP(g1, b), modExpP(g1, b)
+			r2, r3 := big.NewInt(11), big.NewInt(12)
+			c2 := c12Hash(v, 3, modExpP(g1, r2))
+			d2 := subMod(r2, mul(b, c2), q)
+			c3 := c12Hash(v, 4, modExpP(g1, r3))
+			d3 := subMod(r3, mul(b, c3), q)
+			g2v, g3v := modExpP(g2a, b), modExpP(g3a, b)
+			d5, d6 := big.NewInt(55), big.NewInt(66)
+			// cP = H(5, g3^d5 * pb^cP, g1^d5 * g2^d6 * qb^cP): with pb, qb ≡ 0 or 1 the powers do not depend on cP
+			cp := c12Hash(v, 5, mulMod(modExpP(g3v, d5), c12DegPow(pb), p), mulMod(mulMod(modExpP(g1, d5), modExpP(g2v, d6), p), c12DegPow(qb), p))
+			r2m := sendD(c12MkTLV(tlvTypeSMP2, nil, []*big.Int{g2b, c2, d2, g3b, c3, d3, pb, qb, cp, d5, d6}))
+			ts3 := victimTLVs(r2m)
+			var m3 []*big.Int
+			for _, t3 := range ts3 {
+				if t3.tlvType == tlvTypeSMP3 {
+					_, m3, _ = c12Split(t3)
+				}
+			}
+			if len(m3) < 8 {
+				return fs, "rejected at SMP2: " + strings.Join(events, ",")
+			}
+			// the victim went on: try to finish with Rb chosen so that the final comparison is between degenerate values
+			for _, rbn := range []string{"0", "1"} {
+				rb := c12Degenerate(rbn)
+				d7 := big.NewInt(888)
+				qa := m3[1]
+				var qaqb *big.Int
+				if new(big.Int).Mod(qb, p).Sign() == 0 {
+					qaqb = big.NewInt(0)
+				} else {
+					qaqb = divMod(qa, qb, p)
+				}
+				// cR = H(8, g1^d7 * g3b^cR, (Qa/Qb)^d7 * Rb^cR); with b3 = 1 honest proof of g3b: r7 = d7 + cR
+				r7 := big.NewInt(4242)
+				second := modExpP(qaqb, r7)
+				if rb.Sign() == 0 {
+					second = big.NewInt(0)
+				}
+				cr := c12Hash(v, 8, modExpP(g1, r7), second)
+				d7 = subMod(r7, mul(b, cr), q)
+				sendD(c12MkTLV(tlvTypeSMP4, nil, []*big.Int{rb, cr, d7}))
+			}
+			return fs, "accepted degenerate SMP2: " + strings.Join(events, ",")
+		}
+		// smp3: the attacker initiates honestly (a2 = a3 = 1), the victim answers, the attacker sends a degenerate SMP3
+		pa, qa, ra := val(1), val(2), val(3)
+		r2, r3 := big.NewInt(21), big.NewInt(22)
+		g2a, g3a := modExpP(g1, b), modExpP(g1, b)
+		c2 := c12Hash(v, 1, modExpP(g1, r2))
+		d2 := subMod(r2, mul(b, c2), q)
+		c3 := c12Hash(v, 2, modExpP(g1, r3))
+		d3 := subMod(r3, mul(b, c3), q)
+		r1 := sendD(c12MkTLV(tlvTypeSMP1, nil, []*big.Int{g2a, c2, d2, g3a, c3, d3}))
+		asked := false
+		for _, ev := range r1.Events {
+			if ev.Kind == 'P' && SMPEvent(ev.Code) == SMPEventAskForSecret {
+				asked = true
+			}
+		}
+		if !asked {
+			return fs, "honest SMP1 not accepted: " + strings.Join(events, ",")
+		}
+		a := V.AnswerSMP([]byte("the real secret"))
+		if a.Panic != "" {
+			bad("panic:"+verifPanicClass(a.Panic), "%s", a.Panic)
+			return fs, "panic"
+		}
+		ts := victimTLVs(a)
+		if len(ts) == 0 {
+			return fs, "no SMP2 from the victim"
+		}
+		_, m2, ok := c12Split(ts[len(ts)-1])
+		if !ok || len(m2) < 11 {
+			return fs, "no SMP2 from the victim"
+		}
+		g2v, g3v, qb := modExpP(m2[0], b), modExpP(m2[3], b), m2[7]
+		d5, d6 := big.NewInt(55), big.NewInt(66)
+		cp := c12Hash(v, 6, mulMod(modExpP(g3v, d5), c12DegPow(pa), p), mulMod(mulMod(modExpP(g1, d5), modExpP(g2v, d6), p), c12DegPow(qa), p))
+		qaqb := mulMod(new(big.Int).Mod(qa, p), modInverse(qb, p), p)
+		// cR = H(7, g1^d7 * g3a^cR, (Qa/Qb)^d7 * Ra^cR), r7 = d7 + a3*cR; the second argument is fixed only when
+		// Qa ≡ 0 (then it is 0) or Ra ≡ 1 and the prover follows the protocol; otherwise the proof is a guess
+		r7 := big.NewInt(4343)
+		second := modExpP(qaqb, r7)
+		if new(big.Int).Mod(ra, p).Sign() == 0 {
+			second = big.NewInt(0)
+		}
+		cr := c12Hash(v, 7, modExpP(g1, r7), second)
+		d7 := subMod(r7, mul(b, cr), q)
+		sendD(c12MkTLV(tlvTypeSMP3, nil, []*big.Int{pa, qa, cp, d5, d6, ra, cr, d7}))
+		return fs, "degenerate SMP3: " + strings.Join(events, ",")
+	}
 	switch at.Attack {
 	case "smp1-unit-elements-then-forged-smp3", "smp1-g2a-0", "smp1-g2a-p-1":
 		// attacker initiates with g2a = g3a = X (degenerate), proofs recomputed
@@ -747,7 +914,7 @@ func init() {
 			return nil
 		},
 		Run: func(r *verifReport) {
-			r.Rule = "victim in every SMP state in both roles (expect1 with/without question, waiting for the secret, expect2, expect3, expect4, never ran SMP), v2 and v3; deviations delivered correctly authenticated through a clone of its peer: every MPI field of the genuine next message replaced by {0,1,2,p-2,p-1,p,p+1,q,q±1,honest±1,honest+p,2^2000}, MPI counts n-1,n+1,0,2^31,2^32-1, dropped/extra MPI, length prefixes beyond the TLV, truncations, question variants, duplicates, aborts before/after, and every message that is genuine for another state (out of sequence); a malicious prover who recomputes the proofs over degenerate elements (unit elements with forged SMP3 / SMP4, Pb=1 Qb=0, g2a=0, g2a=p-1); and an explicit-state exploration of all sequences of ≤ 2-3 foreign SMP messages and user calls (start, answer, abort, End). Oracle: no panic, never success, and afterwards (abort, then a fresh honest run with equal secrets initiated by either side) success on both sides"
+			r.Rule = "victim in every SMP state in both roles (expect1 with/without question, waiting for the secret, expect2, expect3, expect4, never ran SMP), v2 and v3; deviations delivered correctly authenticated through a clone of its peer: every MPI field of the genuine next message replaced by {0,1,2,p-2,p-1,p,p+1,q,q±1,honest±1,honest+p,2^2000}, MPI counts n-1,n+1,0,2^31,2^32-1, dropped/extra MPI, length prefixes beyond the TLV, truncations, question variants, duplicates, aborts before/after, and every message that is genuine for another state (out of sequence); a malicious prover who recomputes the proofs over degenerate elements (unit elements with forged SMP3 / SMP4, g2a=0, g2a=p-1, and every combination of Pb, Qb in SMP2 and of Pa, Qa, Ra in SMP3 taken from {0, p, 2p, 1}); and an explicit-state exploration of all sequences of ≤ 2-3 foreign SMP messages and user calls (start, answer, abort, End). Oracle: no panic, never success, and afterwards (abort, then a fresh honest run with equal secrets initiated by either side) success on both sides"
 			r.Assumptions = []string{"authenticated payloads are produced with the honest peer's session keys (the attacker is the authenticated peer itself)", "recovery is probed once per distinct world state"}
 			x := &c12Runner{recovered: map[[16]byte]string{}}
 			type job struct {
